@@ -2,7 +2,7 @@
    [vm_compute] evaluation inside coqc run exactly the same function.
    A case is a list of numbers; the first is the case kind. *)
 From Coq Require Import NArith List Bool.
-From PDB Require Import Gen.Consts Model.IndexPage Model.Pipeline Model.Meta Model.Migrate Model.ValueTable.
+From PDB Require Import Gen.Consts Model.IndexPage Model.Pipeline Model.Meta Model.Migrate Model.ValueTable Model.MultiTree.
 Import ListNotations.
 Open Scope N_scope.
 
@@ -216,12 +216,175 @@ Definition run_c06 (l : list N) : list N :=
   | _ => err_marker
   end.
 
+(* ---- kind 10: multitree histories ---- *)
+Fixpoint resolve_path (fuel : nat) (s : mstate) (n : option node) (path : list N) (last : nid) : nid :=
+  match fuel with
+  | O => last
+  | S f =>
+      match path, n with
+      | [], _ => last
+      | i :: rest, Some nd =>
+          let id := nth (N.to_nat i) (n_children nd) 0 in
+          resolve_path f s (MultiTree.get_node s id) rest id
+      | _ :: _, None => 0
+      end
+  end.
+
+(* tree := data nchildren child* ; child := 0 tree | 1 key pathlen idx* *)
+Fixpoint parse_tree (fuel : nat) (s : mstate) (l : list N) : tree * list N :=
+  match fuel with
+  | O => (TNode 0 [], l)
+  | S f =>
+      match l with
+      | d :: n :: rest =>
+          let '(cs, r) :=
+            (fix kids (k : nat) (l : list N) : list tchild * list N :=
+               match k with
+               | O => ([], l)
+               | S k' =>
+                   match l with
+                   | 0 :: r0 => let '(t, r1) := parse_tree f s r0 in
+                                let '(cs, r2) := kids k' r1 in (TNew t :: cs, r2)
+                   | _ :: key :: plen :: r0 =>
+                       let path := firstn (N.to_nat plen) r0 in
+                       let id := resolve_path (S (length path)) s (MultiTree.get_root s key) path 0 in
+                       let '(cs, r2) := kids k' (skipn (N.to_nat plen) r0) in (TExisting id :: cs, r2)
+                   | _ => ([], l)
+                   end
+               end) (N.to_nat n) rest in
+          (TNode d cs, r)
+      | _ => (TNode 0 [], l)
+      end
+  end.
+
+Fixpoint parse_uops (n : nat) (s : mstate) (l : list N) : list uop * list N :=
+  match n with
+  | O => ([], l)
+  | S n' =>
+      match l with
+      | 1 :: k :: rest => let '(t, r) := parse_tree (length rest) s rest in
+                          let '(ops, r') := parse_uops n' s r in (UInsertTree k t :: ops, r')
+      | 2 :: k :: rest => let '(ops, r') := parse_uops n' s rest in (URefTree k :: ops, r')
+      | 3 :: k :: rest => let '(ops, r') := parse_uops n' s rest in (UDerefTree k :: ops, r')
+      | 4 :: k :: v :: rest => let '(ops, r') := parse_uops n' s rest in (UKvSet k v :: ops, r')
+      | 5 :: k :: rest => let '(ops, r') := parse_uops n' s rest in (UKvDel k :: ops, r')
+      | 6 :: k :: rest => let '(ops, r') := parse_uops n' s rest in (UBadSet k :: ops, r')
+      | _ => ([], l)
+      end
+  end.
+
+(* canonical dump: nodes are numbered in order of first visit across the whole observation *)
+Fixpoint dump_children (fuel : nat) (s : mstate) (ids : list nid) (seen : list nid) : list N * list nid :=
+  match fuel with
+  | O => ([], seen)
+  | S f =>
+      match ids with
+      | [] => ([], seen)
+      | id :: rest =>
+          let '(out, seen1) :=
+            match (fix idx (l : list nid) (i : N) : option N :=
+                     match l with [] => None | x :: r => if x =? id then Some i else idx r (i + 1) end) seen 0 with
+            | Some i => ([2; i], seen)
+            | None =>
+                match MultiTree.get_node s id with
+                | None => ([3], seen ++ [id])
+                | Some nd =>
+                    let '(o, sn) := dump_children f s (n_children nd) (seen ++ [id]) in
+                    (1 :: n_data nd :: N.of_nat (length (n_children nd)) :: o, sn)
+                end
+            end in
+          let '(out2, seen2) := dump_children f s rest seen1 in
+          (out ++ out2, seen2)
+      end
+  end.
+
+Fixpoint dump_roots (fuel : nat) (s : mstate) (keys : list N) (seen : list nid) : list N :=
+  match keys with
+  | [] => []
+  | k :: rest =>
+      match MultiTree.get_root s k with
+      | None => 0 :: dump_roots fuel s rest seen
+      | Some r =>
+          let '(o, sn) := dump_children fuel s (n_children r) seen in
+          (1 :: n_data r :: N.of_nat (length (n_children r)) :: o) ++ dump_roots fuel s rest sn
+      end
+  end.
+
+Definition mobserve (nkeys : nat) (s : mstate) : list N :=
+  let keys := map N.of_nat (seq 0 nkeys) in
+  let fuel := (4 + 4 * (length (nodes s) + length (aov s)) * (2 + length (nodes s) + length (aov s)))%nat in
+  dump_roots fuel s keys [] ++ map (fun k => opt_tok (get_kv s k)) keys.
+
+Fixpoint mrun_steps (fuel : nat) (cf : mcfg) (cnt : bool) (nkeys : nat) (s : mstate) (l : list N) : list N :=
+  match fuel with
+  | O => []
+  | S f =>
+      match l with
+      | [] => []
+      | code :: rest =>
+          let '(s', status, rest', extra) :=
+            if code =? 1 then
+              match rest with
+              | n :: r => let '(ops, r') := parse_uops (N.to_nat n) s r in
+                          let '(s1, st) := mcommit_tx cf s ops in (s1, st, r', false)
+              | [] => (s, 0, [], false)
+              end
+            else if code =? 2 then (mprocess cf s, 0, rest, false)
+            else if code =? 6 then (mreopen cf s, 0, rest, true)
+            else if code =? 9 then match rest with k :: r => (mlock s k, 0, r, false) | [] => (s, 0, [], false) end
+            else if code =? 10 then match rest with k :: r => (munlock s k, 0, r, false) | [] => (s, 0, [], false) end
+            else (s, 0, rest, false) in
+          status :: mobserve nkeys s' ++ (if (extra : bool) then [if cnt then num_entries s' else 65535] else []) ++ mrun_steps f cf cnt nkeys s' rest'
+      end
+  end.
+
+(* debugging aid (kind 110): per step: status, queue length, then per key: stored count of the root (0 = absent) *)
+Fixpoint mdebug_steps (fuel : nat) (cf : mcfg) (nkeys : nat) (s : mstate) (l : list N) : list N :=
+  match fuel with
+  | O => []
+  | S f =>
+      match l with
+      | [] => []
+      | code :: rest =>
+          let '(s', status, rest') :=
+            if code =? 1 then
+              match rest with
+              | n :: r => let '(ops, r') := parse_uops (N.to_nat n) s r in
+                          let '(s1, st) := mcommit_tx cf s ops in (s1, st, r')
+              | [] => (s, 0, [])
+              end
+            else if code =? 2 then (mprocess cf s, 0, rest)
+            else if code =? 6 then (mreopen cf s, 0, rest)
+            else if code =? 9 then match rest with k :: r => (mlock s k, 0, r) | [] => (s, 0, []) end
+            else if code =? 10 then match rest with k :: r => (munlock s k, 0, r) | [] => (s, 0, []) end
+            else (s, 0, rest) in
+          [9999; code; status; N.of_nat (length (mqueue s'))]
+            ++ map (fun k => match alook (roots s') (N.of_nat k) with Some (_, c) => c | None => 0 end) (seq 0 nkeys)
+            ++ mdebug_steps f cf nkeys s' rest'
+      end
+  end.
+Definition run_c10_debug (l : list N) : list N :=
+  match l with
+  | rc :: ao :: cnt :: nkeys :: nsteps :: steps =>
+      mdebug_steps (N.to_nat nsteps) {| m_rc := negb (rc =? 0); m_append_only := negb (ao =? 0) |} (N.to_nat nkeys) minit steps
+  | _ => err_marker
+  end.
+
+Definition run_c10 (l : list N) : list N :=
+  match l with
+  | rc :: ao :: cnt :: nkeys :: nsteps :: steps =>
+      mrun_steps (N.to_nat nsteps) {| m_rc := negb (rc =? 0); m_append_only := negb (ao =? 0) |} (negb (cnt =? 0)) (N.to_nat nkeys) minit steps
+  | _ => err_marker
+  end.
+
 Definition dispatch (l : list N) : list N :=
   match l with
   | 19 :: rest => run_c19 rest
   | 1 :: rest => run_hist rest
   | 17 :: rest => run_c17 rest
   | 9 :: rest => run_c09 rest
+  | 10 :: rest => run_c10 rest
+  | 110 :: rest => run_c10_debug rest
   | 6 :: rest => run_c06 rest
   | 20 :: rest => run_c20 rest
   | _ => err_marker
